@@ -8,7 +8,8 @@ BASE_OFF = "cd /repo && /venv/bin/python -m pytest -ra -q -p no:cacheprovider --
 
 NOTE = ("Trusted base (repeated in each evidence file): pyvc's symbolic semantics of the Python subset (guarded by a native "
         "cross-check of every contract on random inputs and by mutation self-tests), z3, the library models in pyvc/lib.py "
-        "(numpy Generator draws are arbitrary in-range outcomes; numpy/list indexing; enum/dataclass), closed world of the "
+        "(numpy Generator draws are arbitrary in-range outcomes / permutations; numpy/list indexing; linspace; enum/dataclass; pickle round trip = deep copy; "
+        "hash uninterpreted; gym<=0.21 stubs), closed world of the "
         "eleven built-in GridObject classes, ownership (no grid object reachable twice), partial correctness only, floats as reals.")
 
 CLAIMS = {
